@@ -15,6 +15,10 @@ ATTRS = [v + s for v in VIEWS for s in ('', '_runs', '_pars')] + ['text', 'comme
 def one(ctx, data, meta=None, opts=pk.OPTS):
     ctx.evaluations += 1
     good = True
+    # the hypothesis of C13_part_total, evaluated by the Lean model on the parts as they are walked
+    v = ctx.drv.ask({**pk.model_case(data, False, True)[0], 'op': 'valid'})
+    allvalid = all(isinstance(x, dict) and x.get('ok') is True for x in v.values()) if isinstance(v, dict) and 'err' not in v else False
+    ctx.count('validT holds for every content part' if allvalid else 'validT false for some part')
     for html, dup, i, m in observe(ctx, data, opts):
         case = case_payload(data, html=html, dup=dup)
         if 'ctor' in i:
@@ -24,6 +28,8 @@ def one(ctx, data, meta=None, opts=pk.OPTS):
             ikind = 'ok' if 'ok' in iv else iv['err']
             mkind = 'ok' if 'ok' in mv else mv['err']
             ctx.count('outcome:' + ikind)
+            if ikind != 'ok' and allvalid and a.endswith('_pars'):
+                ctx.notes.append('a part satisfying validT raised in the implementation: the theorem C13_part_total does not transfer (model and code differ)')
             if ikind != 'ok':
                 ctx.fail(f'reading an attribute of a schema-valid package raised', {**case, 'attribute': a}, iv, features=['raises:' + ikind]); good = False
             if ikind != mkind:
